@@ -4,6 +4,8 @@ import (
 	"context"
 	"errors"
 	"fmt"
+	"google.golang.org/grpc/codes"
+	"google.golang.org/grpc/status"
 	"io"
 	"net"
 	"net/http"
@@ -90,9 +92,22 @@ func runC13(o *hx.Out, r *hx.Rand, thorough bool) {
 		}
 		seen = s
 	}
+	handlerFails, callNo := false, 0
 	svc := &hx.Svc{
-		Unary:  func(ctx context.Context, req *hx.Msg) (*hx.Msg, error) { record(ctx); return &hx.Msg{}, nil },
-		Stream: func(kind string, ss grpc.ServerStream) error { record(ss.Context()); return nil },
+		Unary: func(ctx context.Context, req *hx.Msg) (*hx.Msg, error) {
+			record(ctx)
+			if handlerFails {
+				return nil, status.Error(codes.NotFound, "no such thing")
+			}
+			return &hx.Msg{}, nil
+		},
+		Stream: func(kind string, ss grpc.ServerStream) error {
+			record(ss.Context())
+			if handlerFails {
+				return status.Error(codes.NotFound, "no such thing")
+			}
+			return nil
+		},
 	}
 	hs0 := httpgrpc.NewServer()
 	hs0.RegisterService(hx.Desc(hx.SvcName), svc)
@@ -216,9 +231,17 @@ func runC13(o *hx.Out, r *hx.Rand, thorough bool) {
 							}
 						}
 						var opts []grpc.CallOption
+						callNo++
+						decoy := creds != nil && callNo%3 == 0
+						if decoy {
+							// an earlier credentials option of the same call: the last one given is the one that counts
+							opts = append(opts, grpc.PerRPCCredentials(mapCreds{"x-first": "1"}))
+							keys["x-first"] = true
+						}
 						if creds != nil {
 							opts = append(opts, grpc.PerRPCCredentials(*creds))
 						}
+						handlerFails = (callNo*7+callNo/5)%5 < 2
 						var pr peer.Peer
 						if wantPeer {
 							opts = append(opts, grpc.Peer(&pr))
@@ -281,7 +304,10 @@ func runC13(o *hx.Out, r *hx.Rand, thorough bool) {
 							_, pAuth = pr.AuthInfo.(credentials.TLSInfo)
 						}
 						reqs := nreq
-						desc := map[string]interface{}{"transport": transport, "stream": stream, "creds": credTerm, "creds_keys_as_given": credKeys(creds), "caller_md": cm, "peer_option": wantPeer,
+						// the handler's own NotFound is not a failure of the call's set-up: everything else (what the handler
+						// saw, the peer reported to the caller) is as for a call that succeeds
+						failed := err != nil && !(handlerFails && seen != nil && status.Code(err) == codes.NotFound)
+						desc := map[string]interface{}{"transport": transport, "stream": stream, "creds": credTerm, "handler_fails_with_NotFound": handlerFails, "earlier_credentials_option_too": decoy, "creds_keys_as_given": credKeys(creds), "caller_md": cm, "peer_option": wantPeer,
 							"error": fmt.Sprint(err), "requests": reqs}
 						if creds != nil && creds.secure && strings.HasPrefix(transport, "http") && !strings.HasPrefix(transport, "https") && reqs > 0 {
 							o.Violate("credentials requiring transport security crossed plain http", desc, reqs, 0)
@@ -289,7 +315,7 @@ func runC13(o *hx.Out, r *hx.Rand, thorough bool) {
 						kind := strings.Join([]string{transport, map[bool]string{false: "unary", true: "stream"}[stream]}, "_")
 						o.Case(kind, fmt.Sprintf("CallCase %s %s %s %s %s %s %s %s %s {| o_failed := %s; o_requests := %s; o_handler_md := %s; o_peer_addr := %s; o_peer_auth := %s; o_handler_peer_auth := %s; o_handler_peer_addr_set := %s |}",
 							hx.Str(transport), hx.B(strings.HasPrefix(transport, "https")), hx.B(transport == "inproc"), hx.B(stream), credTerm, outTerm, hx.B(wantPeer), hx.Str(host), hx.B(hasPort),
-							hx.B(err != nil), hx.Z(reqs), hmd, pAddr, hx.B(pAuth), hx.B(hAuth), hx.B(hAddr)), desc)
+							hx.B(failed), hx.Z(reqs), hmd, pAddr, hx.B(pAuth), hx.B(hAuth), hx.B(hAddr)), desc)
 					}
 				}
 			}
